@@ -18,7 +18,7 @@ use std::collections::{BTreeMap, BTreeSet};
 use std::path::{Path, PathBuf};
 
 use nonempty::NonEmpty;
-use radicle::cob::{self, change::Storage as _, object::Storage as _};
+use radicle::cob::{self, change::Storage as _};
 use radicle::crypto::test::signer::MockSigner;
 use radicle::crypto::{PublicKey, Verified};
 use radicle::git::{self, Oid, Qualified};
@@ -337,13 +337,13 @@ impl<'a> Comb<'a> {
             panic!("comb: namespace pool too small ({} tips)", tips.len());
         }
         for (ns, tip) in pool.iter().zip(&tips) {
-            self.repo.update(ns, &self.type_name, object, tip).expect("update ref");
+            cob::object::Storage::update(self.repo, ns, &self.type_name, object, tip).expect("update ref");
         }
         let out = f();
         for (ns, _) in pool.iter().zip(&tips) {
             match restore {
-                Some((keep, at)) if keep == ns => self.repo.update(ns, &self.type_name, object, &at).expect("restore ref"),
-                _ => self.repo.remove(ns, &self.type_name, object).expect("remove ref"),
+                Some((keep, at)) if keep == ns => cob::object::Storage::update(self.repo, ns, &self.type_name, object, &at).expect("restore ref"),
+                _ => cob::object::Storage::remove(self.repo, ns, &self.type_name, object).expect("remove ref"),
             }
         }
         out
